@@ -44,7 +44,10 @@ def play_steps(sc, prof, hist, thr=None, interleave=None, mid_comp=None, split=N
     answers = 2
     for i, (kind, key, payload) in enumerate(hist):
         if mid_comp is not None and i == mid_comp[0] and prof.c.get('play_compress') is not None:
-            steps += [('send', P.VI(prof.c['play_compress']) + P.VI(mid_comp[1])), ('compress', mid_comp[1])]
+            # the server waits for the answers that are still due before it switches: a client frame written before the
+            # client has seen the announcement but arriving after the server's switch would be ambiguous in the protocol
+            # itself (not a matter of this client)
+            steps += [('expect', answers), ('send', P.VI(prof.c['play_compress']) + P.VI(mid_comp[1])), ('compress', mid_comp[1])]
         if split is not None and i == split:
             steps += split_steps(sc, payload, kind, key)
         else:
@@ -273,7 +276,7 @@ def two_connections(va, vb, hist_a, hist_b, seed, thr_a, thr_b):
     return run, out
 
 
-def pending_write_scenario(version, seed, n_pending, policy=None, kick=False):
+def pending_write_scenario(version, seed, n_pending, policy=None, kick=False, last_ka=False):
     """The server sends its disconnect packet and closes while the client still has packets queued: the failing write
     is not an error (the disconnect packet explains it): clean exit, exit callback once, no error reported."""
     from minecraft.networking.packets import Packet, serverbound
@@ -287,8 +290,11 @@ def pending_write_scenario(version, seed, n_pending, policy=None, kick=False):
                     ('call', lambda s: setattr(s, 'state', 'play')),
                     # kick: the server answers the first packet of a burst with its disconnect packet and closes, so the
                     # rest of the burst fails in the client's write phase *before* the disconnect packet is read
-                    (('expect', 3) if kick else ('pause', 'go')),
-                    sc.tagged(prof.play_disconnect('{"text":"bye"}'), 'disc', []), ('close',)]
+                    (('expect', 3) if kick else ('pause', 'go'))]
+        if last_ka:
+            # a last keep-alive right in front of the goodbye: its answer can no longer be delivered - not an error either
+            sc.steps.append(sc.tagged(prof.keep_alive(77), 'ka', key64(77)))
+        sc.steps += [sc.tagged(prof.play_disconnect('{"text":"bye"}'), 'disc', []), ('close',)]
         holder['sc'] = sc
         return sc
     run.serve(factory)
@@ -491,14 +497,17 @@ def run(chk):
         # random schedules: the failing write may happen in the write phase (deferred, then cancelled by the disconnect
         # packet read afterwards) or in disconnect()'s own flush
         pol = vsched.RandomPolicy(chk.seed * 8191 + j, switch_prob=[0.2, 0.5, 0.8][j % 3]) if j % 4 else None
-        run_, tr = pending_write_scenario(version, chk.seed * 4099 + j, n_pending=[1, 2, 5][j % 3] + (j % 2), policy=pol, kick=(j % 2 == 1))
+        last_ka = j % 5 == 3
+        run_, tr = pending_write_scenario(version, chk.seed * 4099 + j, n_pending=[1, 2, 5][j % 3] + (j % 2), policy=pol, kick=(j % 2 == 1),
+                                          last_ka=last_ka)
         chk.traces += 1
         chk.case(('pending', j))
         if run_.outcome != 'done' or run_.errors or run_.exits != 1:
             chk.violation('play:disconnect-with-pending-writes',
                           'server disconnect packet + close with %d packets still queued at protocol %d: execution %s, exit callback ran '
                           '%d times, errors %r' % ([1, 2, 5][j % 3] + (j % 2), version, run_.outcome, run_.exits, run_.errors[:2]), {'version': version, 'kick': bool(j % 2)})
-        all_traces.append(tr)
+        if not last_ka:         # (the contract of Trace_Play wants every keep-alive answered: not where the server is gone)
+            all_traces.append(tr)
 
     # ---- 4. validate all traces against the contract
     shards = 8
